@@ -144,6 +144,12 @@ def spot_oracles(V, opt, sc, bounds, g, stats):
         w = hi - lo
         if ((x - 2e-4 * w) < lo).any() or ((x + 2e-4 * w) > hi).any() or grad.shape[0] != sc["d"]:
             continue
+        if sg * sg < 1e-5 * float(np.var(opt.y)) + 1e-300:
+            # a predictive variance this far below the signal variance is k** - k^T K^-1 k after
+            # catastrophic cancellation (K is ill-conditioned next to data / near-duplicates): both the
+            # analytic and the numerical derivative are then dominated by round-off, nothing to compare
+            stats["gradient_checks_skipped_tiny_variance"] += 1
+            continue
 
         def fd(h):
             out = np.zeros(sc["d"])
